@@ -209,8 +209,9 @@ pub fn worker_main(lookup: fn(&str) -> Option<EntryFn>) -> ! {
                     if res.is_err() {
                         break;
                     }
-                    if rep == 0 && reps > 1 {
-                        // the first call may fill caches and lazily initialised state: measure from after it
+                    if reps > 1 && rep + 1 == (reps / 4).max(1) {
+                        // the first calls fill caches, lazily initialised state and allocator arenas:
+                        // the growth is measured over the last three quarters of the repetitions
                         heap_warm = alloc::malloc_in_use() as i64;
                     }
                 }
